@@ -24,6 +24,7 @@ Definition dispatch (e : sexp) : option sexp :=
   | SList (Atom "find" :: _) => run_find e
   | SList (Atom "plain" :: _) => run_plain e
   | SList (Atom "helpdoc" :: _) => run_helpdoc e
+  | SList (Atom "usagedoc" :: _) => run_usagedoc e
   | SList (Atom "splitws" :: _) => run_splitws e
   | SList (Atom "become" :: _) => run_become e
   | _ => None
